@@ -146,7 +146,7 @@ def run(ctx):
                 if v not in (None, 0):
                     return "D4: division by the non-zero constant %s" % v
         return None
-    sites = panics.analyse(ctx, bodies, "C13.D1.arithmetic", extra_rules=[sub_one, div_const], include_alloc=False)
+    sites = panics.analyse(ctx, bodies, "C13.D1.arithmetic", extra_rules=[sub_one, div_const], include_alloc=False, narrowing=True)
     ctx.floor("C13.D1.arithmetic.sites", len(sites), 2)
 
     # D2 clamp
